@@ -222,6 +222,11 @@ func CompileSeg(s Seg) (MSeg, error) {
 			ms.Lit = s.Elems[0].Lit
 		}
 	case KRegex:
+		for _, x := range s.Exprs() {
+			if _, err := regexp.Compile(x); err != nil {
+				return ms, fmt.Errorf("expression %q does not compile on its own: %v", x, err)
+			}
+		}
 		var b strings.Builder
 		b.WriteString("^")
 		n := 0
